@@ -105,6 +105,14 @@ func c20StoreForChain(chain []c20Level) *c20Stores {
 
 // the `<maps>` and `<pub>` fields of a case line
 func (st *c20Stores) cfgFields() (string, string) {
+	if st.levels != nil { // keyed stores: names and keys read off every store of the chain (c20_keyed.go)
+		var ms, ps []string
+		for i, l := range st.levels {
+			ms = append(ms, c20MapsField(l))
+			ps = append(ps, c20Names(st.pubs[i]))
+		}
+		return strings.Join(ms, "^"), strings.Join(ps, "^")
+	}
 	if len(st.pubs) <= 1 {
 		return c20Names(c20Maps), c20Names(st.pub)
 	}
